@@ -137,6 +137,9 @@ func checkCmd(args []string) {
 		sec, _ = strconv.Atoi(s)
 	}
 	evPath := filepath.Join(verifDir, "evidence", prop+".json")
+	if d := os.Getenv("GVC_EVIDENCE_DIR"); d != "" {
+		evPath = filepath.Join(d, prop+".json") // self-test runs against a scratch copy must not touch the real evidence
+	}
 	os.MkdirAll(filepath.Dir(evPath), 0755)
 	os.Remove(evPath)
 
@@ -283,6 +286,9 @@ func checkCmd(args []string) {
 	violations := 0
 	var knownMatched []string
 	replayDir := filepath.Join(verifDir, "out", "replay", prop)
+	if d := os.Getenv("GVC_EVIDENCE_DIR"); d != "" {
+		replayDir = filepath.Join(d, "replay", prop)
+	}
 	vacuous := 0
 	for _, r := range all {
 		if r.Class == "cover" {
